@@ -32,7 +32,7 @@ def extra_of(uid, dtype="float32"):
     return uid.float() * 0.5 + 1
 
 
-def build(kind, td, extra_dtype="float32"):
+def build(kind, td, extra_dtype="float32", key="extra"):
     from rl4co.data.dataset import ExtraKeyDataset, FastTdDataset, TensorDictDataset, TensorDictDatasetFastGeneration
 
     extra = extra_of(td["uid"], extra_dtype)  # a function of the instance id: must travel with its instance
@@ -43,11 +43,11 @@ def build(kind, td, extra_dtype="float32"):
     if kind == "fastgen":
         return TensorDictDatasetFastGeneration(td.clone()), None
     if kind == "td+extra":
-        return TensorDictDataset(td.clone()).add_key("extra", extra), extra
+        return TensorDictDataset(td.clone()).add_key(key, extra), extra
     if kind == "fast+extra":
-        return FastTdDataset(td.clone()).add_key("extra", extra), extra
+        return FastTdDataset(td.clone()).add_key(key, extra), extra
     if kind == "fastgen+extra":
-        return TensorDictDatasetFastGeneration(td.clone()).add_key("extra", extra), extra
+        return TensorDictDatasetFastGeneration(td.clone()).add_key(key, extra), extra
     if kind == "extrakey_explicit":
         return ExtraKeyDataset(TensorDictDataset(td.clone()), extra, key_name="bl"), extra
     raise KeyError(kind)
@@ -70,8 +70,10 @@ def roundtrip_case(ctx, case):
     kind, N, bs, shuffle, seed = case["ds"], case["N"], case["bs"], case["shuffle"], case["s"]
     env, td = make_td(N, seed, case.get("env", "cvrp"))
     fp0 = td_fingerprint(td)
-    ds, extra = build(kind, td, case.get("extra_dtype", "float32"))
+    ds, extra = build(kind, td, case.get("extra_dtype", "float32"), case.get("key", "extra"))
     sig = dict(ds=kind, shuffle=shuffle)
+    if case.get("key", "extra") != "extra":
+        sig["key"] = "custom"
     if case.get("extra_dtype", "float32") != "float32":
         sig["extra_dtype"] = case["extra_dtype"]
     module = None
@@ -118,9 +120,13 @@ def roundtrip_case(ctx, case):
                 ctx.violation(dict(sig, q="content"), f"key {k}: content of the instances read back differs from the originals (row pairing broken)", dict(N=N, bs=bs))
                 return
         if extra is not None:
-            key = "bl" if kind == "extrakey_explicit" else "extra"
+            key = "bl" if kind == "extrakey_explicit" else case.get("key", "extra")
             if key not in allb.keys():
-                ctx.violation(dict(sig, q="extra_missing"), f"extra key '{key}' missing from the batches", None)
+                ctx.violation(dict(sig, q="extra_missing"), f"extra key '{key}' missing from the batches (keys read back: {sorted(map(str, allb.keys()))})", None)
+                return
+            stray = set(map(str, allb.keys())) - set(map(str, td.keys())) - {key}
+            if stray:
+                ctx.violation(dict(sig, q="stray_key"), f"batches carry keys {sorted(stray)} that were neither in the instances nor attached", None)
                 return
             ctx.count("c17_extra_checks", N)
             want_x = extra_of(uid, case.get("extra_dtype", "float32"))
